@@ -20,6 +20,13 @@ type Faulty struct {
 
 	FailFrom, FailTo int // window of failing calls (CAS and Get), 1-based, half-open; 0,0 = none
 
+	// window of writes (CAS calls, counted on their own, 1-based, half-open) that the store refuses AFTER
+	// the caller's function has been evaluated: what a store does when the conditional write fails for
+	// good (the value moved, the connection broke between the read and the write)
+	RefuseFrom, RefuseTo int
+	casCalls             int
+	Refused              int
+
 	mu      sync.Mutex
 	writes  int
 	calls   int
@@ -70,9 +77,19 @@ func (f *Faulty) CAS(ctx context.Context, key string, fn func(interface{}) (inte
 	if failing {
 		return ErrInjected
 	}
+	f.mu.Lock()
+	f.casCalls++
+	refuse := f.RefuseFrom > 0 && f.casCalls >= f.RefuseFrom && f.casCalls < f.RefuseTo
+	f.mu.Unlock()
 	hitAfter, hitBefore := false, false
 	err := f.Client.CAS(ctx, key, func(in interface{}) (interface{}, bool, error) {
 		out, retry, err := fn(in)
+		if refuse {
+			f.mu.Lock()
+			f.Refused++
+			f.mu.Unlock()
+			return nil, false, ErrInjected
+		}
 		if err == nil && out != nil {
 			f.mu.Lock()
 			f.writes++
